@@ -1258,6 +1258,7 @@ class Engine:
 
     def _subst(self, e):
         """z3.substitute(e, *self.fixed) without the per-call overhead of the Python wrapper"""
+        e = z3.simplify(e)                 # learned terms are in simplified form: normalise before matching
         n = _len(self.fixed)
         if self._sub_n != n:
             self._sub_from = (z3.Ast * n)(*[p[0].as_ast() for p in self.fixed])
